@@ -396,6 +396,9 @@ func (e *Engine) typeAssert(f *frame, st *State, x *ssa.TypeAssert, pos string) 
 		nonNil := c.Not(c.Eq(iv.Terms[0], c.IntLit(0)))
 		if types.Implements(x.X.Type(), it) || it.NumMethods() == 0 {
 			ok = nonNil
+		} else if iv.Known != nil {
+			// the dynamic type is statically known: the assertion is decided here
+			ok = c.And(nonNil, c.BoolLit(types.Implements(iv.Known.Typ, it)))
 		} else {
 			ok = c.And(nonNil, e.implements(iv.Terms[0], x.AssertedType))
 		}
@@ -414,6 +417,9 @@ func (e *Engine) typeAssert(f *frame, st *State, x *ssa.TypeAssert, pos string) 
 		out.Terms = append(out.Terms, c.Ite(ok, val.Terms[i], z.Terms[i]))
 	}
 	out.Terms = append(out.Terms, ok)
+	if isInterface(x.AssertedType) && iv.Known != nil {
+		out.Known = iv.Known // of component 0 (see Extract)
+	}
 	return out
 }
 
